@@ -84,6 +84,11 @@ func vfX02ErrClass(err error) string {
 	if errors.Is(err, context.Canceled) {
 		return "canceled"
 	}
+	// what only the environment can cause (a stalled machine, a lost connection of the in-memory node): never evidence
+	if err == ErrTimeoutNoResponse || err == ErrConnectionClosed || err == ErrNoConnections || err == ErrNoStreams ||
+		errors.Is(err, context.DeadlineExceeded) {
+		return "env-" + err.Error()
+	}
 	var re RequestError
 	if errors.As(err, &re) && strings.Contains(re.Message(), vfX02Marker) {
 		return "server"
@@ -730,6 +735,45 @@ func TestVfX02ConsumeReplay(t *testing.T) {
 	vfX02RunPaths(t, paths, "x02_consume_replay.ndjson")
 }
 
+// vfX02Gen: where the generator of random sequences believes the iterator stands (aims its choices, decides nothing).
+type vfX02Gen struct {
+	s         *vfX02Scn
+	page, pos int
+	err, end  bool
+	staged    bool
+}
+
+func (g *vfX02Gen) open() {
+	if g.s.Fail == 1 {
+		g.err = true
+		return
+	}
+	g.page = 1
+}
+func (g *vfX02Gen) done() bool      { return g.err || g.end || g.page == 0 }
+func (g *vfX02Gen) rowInPage() bool { return !g.done() && g.pos < g.s.Pages[g.page-1] }
+func (g *vfX02Gen) step() bool {
+	for !g.done() {
+		if g.pos < g.s.Pages[g.page-1] {
+			g.pos++
+			return true
+		}
+		if g.page >= len(g.s.Pages) {
+			g.end = true
+		} else if g.s.Fail == g.page+1 {
+			g.err = true
+		} else {
+			g.page, g.pos = g.page+1, 0
+		}
+	}
+	return false
+}
+func (g *vfX02Gen) after(v string) {
+	if g.step() && (v == "few" || v == "many" || v == "bad") {
+		g.err = true
+	}
+}
+
 // TestVfX02ConsumeRandom: seeded random call sequences (scenarios may be larger than the model-checked bounds).
 func TestVfX02ConsumeRandom(t *testing.T) {
 	n := vfEnvInt("VF_X02_RANDOM", 300)
@@ -762,23 +806,47 @@ func TestVfX02ConsumeRandom(t *testing.T) {
 			}
 		}
 		p.Scn = s
-		// first call
+		// The generator follows the position of the iterator only to aim its choices (wrong destinations are
+		// mostly tried where a row is in the current page: elsewhere the documentation does not decide them);
+		// whether a call is decided and what it must return is TLC's business.
+		g := &vfX02Gen{s: &s}
+		wrongOK := s.Fail != 1 && s.Pages[0] > 0
+		pickV := func(ok bool) string {
+			if ok || rng.Intn(12) == 0 {
+				return vs[rng.Intn(len(vs))]
+			}
+			return []string{"ok", "ok", "ok", "nil1"}[rng.Intn(4)]
+		}
+		pickM := func(ok bool) string {
+			if (ok || rng.Intn(12) == 0) && rng.Intn(3) == 0 {
+				return "bad"
+			}
+			return "ok"
+		}
 		var first []vfX02Call
 		switch {
 		case s.Via == "batch" && s.Shape == "void":
 			first = []vfX02Call{{"ExecBatch", "-"}}
 		case s.Via == "batch":
-			first = []vfX02Call{{"ExecBatch", "-"}, {"ExecBatchCAS", "ok"}, {"ExecBatchCAS", "ok"}, {"ExecBatchCAS", "nil1"}, {"MapExecBatchCAS", "ok"}, {"MapExecBatchCAS", "bad"}}
+			first = []vfX02Call{{"ExecBatch", "-"}, {"ExecBatchCAS", "ok"}, {"ExecBatchCAS", "ok"}, {"ExecBatchCAS", "nil1"},
+				{"MapExecBatchCAS", "ok"}, {"MapExecBatchCAS", pickM(!s.Applied && s.Fail == 0)}}
 		case s.Shape == "cas":
-			first = []vfX02Call{{"Exec", "-"}, {"Iter", "-"}, {"ScanCAS", "ok"}, {"ScanCAS", vs[rng.Intn(len(vs))]}, {"MapScanCAS", "ok"}, {"MapScanCAS", "bad"}}
+			first = []vfX02Call{{"Exec", "-"}, {"Iter", "-"}, {"ScanCAS", "ok"}, {"ScanCAS", pickV(!s.Applied)}, {"MapScanCAS", "ok"},
+				{"MapScanCAS", pickM(!s.Applied && s.Fail == 0)}}
 		default:
-			first = []vfX02Call{{"Iter", "-"}, {"Iter", "-"}, {"Iter", "-"}, {"Iter", "-"}, {"Exec", "-"}, {"QScan", vs[rng.Intn(len(vs))]}, {"QMapScan", "ok"}, {"QMapScan", "bad"}}
+			first = []vfX02Call{{"Iter", "-"}, {"Iter", "-"}, {"Iter", "-"}, {"Iter", "-"}, {"Exec", "-"}, {"QScan", pickV(wrongOK)},
+				{"QMapScan", pickM(wrongOK)}}
 		}
 		c := first[rng.Intn(len(first))]
 		p.Calls = append(p.Calls, c)
 		mode := "end"
-		if c.Op == "Iter" || c.Op == "ExecBatchCAS" || c.Op == "MapExecBatchCAS" {
+		if c.Op == "Iter" {
 			mode = "iter"
+			g.open()
+		} else if c.Op == "ExecBatchCAS" || c.Op == "MapExecBatchCAS" {
+			mode = "iter"
+			g.open()
+			g.step()
 		}
 		closed := false
 		for k, steps := 0, 2+rng.Intn(12); k < steps && mode != "end"; k++ {
@@ -788,16 +856,24 @@ func TestVfX02ConsumeRandom(t *testing.T) {
 				case closed:
 					c = vfX02Call{"Close", "-"}
 				case r < 9:
-					c = vfX02Call{"Scan", vs[rng.Intn(len(vs))]}
+					c = vfX02Call{"Scan", pickV(g.rowInPage())}
+					g.after(c.V)
 				case r < 12:
-					c = vfX02Call{"MapScan", []string{"ok", "ok", "ok", "bad"}[rng.Intn(4)]}
+					c = vfX02Call{"MapScan", pickM(g.rowInPage())}
+					g.after(c.V)
 				case r < 13:
 					c = vfX02Call{"SliceMap", "-"}
+					for !g.done() {
+						g.step()
+					}
 				case r < 15:
 					c = vfX02Call{"RowData", "-"}
 				case r < 17:
 					c = vfX02Call{"Close", "-"}
 					closed = true
+					if steps > k+2 {
+						steps = k + 2 // one more Close, then the sequence ends
+					}
 				default:
 					c = vfX02Call{"Scanner", "-"}
 					mode = "scanner"
@@ -806,8 +882,13 @@ func TestVfX02ConsumeRandom(t *testing.T) {
 				switch r := rng.Intn(20); {
 				case r < 9:
 					c = vfX02Call{"Next", "-"}
+					g.staged = g.step()
 				case r < 18:
-					c = vfX02Call{"SScan", vs[rng.Intn(len(vs))]}
+					c = vfX02Call{"SScan", pickV(g.staged)}
+					if !g.staged && rng.Intn(6) != 0 {
+						c.V = "ok"
+					}
+					g.staged = false
 				default:
 					c = vfX02Call{"Err", "-"}
 					mode = "end"
